@@ -109,6 +109,21 @@ def write_text(path, text, storage="plain", block=60000):
         raise ValueError(storage)
 
 
+def workdir(prefix, key):
+    """scratch directory of a case; one case in five gets it on ANOTHER file system than the system temp directory
+    (/dev/shm, when it is one): renames from the temp directory, hard links and the like stop working across that border"""
+    import tempfile
+
+    shm = "/dev/shm"
+    try:
+        other = os.path.isdir(shm) and os.access(shm, os.W_OK) and os.stat(shm).st_dev != os.stat(tempfile.gettempdir()).st_dev
+    except OSError:
+        other = False
+    if other and zlib.crc32(("wd" + str(key)).encode()) % 5 == 0:
+        return tempfile.mkdtemp(prefix="verif_" + prefix, dir=shm)
+    return tempfile.mkdtemp(prefix=prefix)
+
+
 def eol_for(key):
     """input files end with a newline in two cases of three; in the third the last record is not newline-terminated
     (valid, and what some pipelines produce) - chosen by a stable hash of the case id"""
